@@ -1181,7 +1181,8 @@ type freshAn struct {
 	p        *Prog
 	callers  map[*ssa.Function][]ssa.CallInstruction
 	inFlight map[*ssa.Function]bool
-	skipSite func(callee *ssa.Function, cs ssa.CallInstruction) bool
+	guards   map[*ssa.Function][]predGuard // pure predicates known to hold while the function runs (for the store under scrutiny)
+	useCorr  bool
 	pure     map[*ssa.Function]int
 }
 
@@ -1258,17 +1259,27 @@ func (a *freshAn) fresh(v ssa.Value, fn *ssa.Function, depth int, seen map[ssa.V
 			}
 			if os.Getenv("VERIF_DEBUG_C17R6") != "" {
 				_, isCall := cs.(*ssa.Call)
-				fmt.Fprintf(os.Stderr, "        site %s isCall=%v skip=%v\n", a.p.Fset.Position(cs.Pos()), isCall, a.skipSite != nil)
+				fmt.Fprintf(os.Stderr, "        site %s isCall=%v skip=%v\n", a.p.Fset.Position(cs.Pos()), isCall, a.useCorr)
 			}
 			if _, isCall := cs.(*ssa.Call); !isCall {
 				return false
 			}
-			if a.skipSite != nil && a.skipSite(fn, cs) {
+			if a.useCorr && a.infeasibleSite(fn, cs) {
 				skipped++
 				continue
 			}
 			n++
-			if pi >= len(cs.Common().Args) || !a.fresh(cs.Common().Args[pi], par, depth-1, map[ssa.Value]bool{}, nil, deep) {
+			// while the caller's frame is examined, the pure predicates that guard this call site hold there
+			var saved []predGuard
+			if a.useCorr {
+				saved = a.guards[par]
+				a.guards[par] = append(append([]predGuard{}, saved...), a.guardsOf(par, cs.Block())...)
+			}
+			ok := pi < len(cs.Common().Args) && a.fresh(cs.Common().Args[pi], par, depth-1, map[ssa.Value]bool{}, nil, deep)
+			if a.useCorr {
+				a.guards[par] = saved
+			}
+			if !ok {
 				return false
 			}
 		}
@@ -1455,6 +1466,38 @@ func (a *freshAn) guardsOf(fn *ssa.Function, b *ssa.BasicBlock) []predGuard {
 	return out
 }
 
+// infeasibleSite: the call site cs of callee lies under the opposite edge of a pure predicate that is known to hold in callee
+// (with the corresponding arguments).
+func (a *freshAn) infeasibleSite(callee *ssa.Function, cs ssa.CallInstruction) bool {
+	g := cs.Parent()
+	for _, gd := range a.guards[callee] {
+		for _, j := range allIfs(g) {
+			v, neg := stripNot(j.Cond)
+			call, ok := v.(*ssa.Call)
+			if !ok || call.Call.StaticCallee() != gd.P || len(call.Call.Args) != len(gd.params) {
+				continue
+			}
+			same := true
+			for k, pi := range gd.params {
+				if pi >= len(cs.Common().Args) || !(call.Call.Args[k] == cs.Common().Args[pi] || sameValue(call.Call.Args[k], cs.Common().Args[pi])) {
+					same = false
+				}
+			}
+			if !same {
+				continue
+			}
+			e := 0
+			if (!gd.truth) == neg {
+				e = 1
+			}
+			if underEdges(g, cs.Block(), []Edge{{j.Block(), e}}) {
+				return true
+			}
+		}
+	}
+	return false
+}
+
 func isAPIType(t types.Type) (*types.Named, bool) {
 	if pt, ok := t.(*types.Pointer); ok {
 		t = pt.Elem()
@@ -1536,64 +1579,18 @@ func c17r6(c *Ctx) {
 				}
 				break
 			}
-			a.skipSite = nil
+			a.useCorr = false
 			if a.fresh(obj, fn, 3, map[ssa.Value]bool{}, nil, false) {
 				nFresh++
 				return
 			}
 			// call sites that cannot reach this store (opposite edge of the same pure predicate in the caller)
-			guards := a.guardsOf(fn, ins.Block())
-			if os.Getenv("VERIF_DEBUG_C17R6") != "" {
-				fmt.Fprintf(os.Stderr, "C17R6 %s guards=%d obj=%T %v\n", stableFnName(fn), len(guards), obj, obj)
-				for _, i := range allIfs(fn) {
-					v, _ := stripNot(i.Cond)
-					if call, ok := v.(*ssa.Call); ok {
-						P := call.Call.StaticCallee()
-						if P != nil {
-							fmt.Fprintf(os.Stderr, "   if on call %s pure=%v under0=%v under1=%v\n", P.Name(), isIstioFunc(P) && a.isPure(P), underEdges(fn, ins.Block(), []Edge{{i.Block(), 0}}), underEdges(fn, ins.Block(), []Edge{{i.Block(), 1}}))
-						}
-					}
-				}
-			}
-			if len(guards) > 0 {
-				a.skipSite = func(callee *ssa.Function, cs ssa.CallInstruction) bool {
-					if os.Getenv("VERIF_DEBUG_C17R6") != "" {
-						fmt.Fprintf(os.Stderr, "   skipSite? callee=%s fn=%s site=%s\n", callee.Name(), fn.Name(), p.Fset.Position(cs.Pos()))
-					}
-					if callee != fn {
-						return false
-					}
-					g := cs.Parent()
-					for _, gd := range guards {
-						for _, j := range allIfs(g) {
-							v, neg := stripNot(j.Cond)
-							call, ok := v.(*ssa.Call)
-							if !ok || call.Call.StaticCallee() != gd.P || len(call.Call.Args) != len(gd.params) {
-								continue
-							}
-							same := true
-							for k, pi := range gd.params {
-								if pi >= len(cs.Common().Args) || !(call.Call.Args[k] == cs.Common().Args[pi] || sameValue(call.Call.Args[k], cs.Common().Args[pi])) {
-									same = false
-								}
-							}
-							if !same {
-								continue
-							}
-							// the edge on which P(...) has the OPPOSITE truth value
-							e := 0
-							if (!gd.truth) == neg {
-								e = 1
-							}
-							if underEdges(g, cs.Block(), []Edge{{j.Block(), e}}) {
-								return true
-							}
-						}
-					}
-					return false
-				}
+			{
+				a.guards = map[*ssa.Function][]predGuard{fn: a.guardsOf(fn, ins.Block())}
+				a.useCorr = true
 				okCorr := a.fresh(obj, fn, 3, map[ssa.Value]bool{}, nil, false)
-				a.skipSite = nil
+				a.useCorr = false
+				a.guards = nil
 				if okCorr {
 					nFresh++
 					nCorr++
@@ -1717,6 +1714,71 @@ func c17r7(c *Ctx) {
 					idx = 0
 				}
 				small = append(small, Edge{i.Block(), idx})
+			}
+		}
+		// the ranged list may be the result of a producer that returns it sorted: a library producer, or a function of the
+		// package in which every path to a return passes a sort (a "fewer than two" guard may bypass it)
+		if pc, isCall := over.(*ssa.Call); isCall {
+			sortedProducer := false
+			if o := calleeObj(pc); o != nil {
+				switch o.Name() {
+				case "SortedList", "Sort", "SortBy", "SortFunc", "SortStableFunc", "SeqStable":
+					sortedProducer = true
+				}
+			}
+			if sc := pc.Call.StaticCallee(); !sortedProducer && sc != nil && len(sc.Blocks) > 0 && funcPkgPath(sc) == funcPkgPath(fn) {
+				isAnySort := func(i ssa.Instruction) bool {
+					c2, ok := i.(*ssa.Call)
+					if !ok {
+						return false
+					}
+					callee := c2.Call.StaticCallee()
+					if callee == nil {
+						return false
+					}
+					o := callee
+					if callee.Origin() != nil {
+						o = callee.Origin()
+					}
+					if o.Pkg == nil {
+						return false
+					}
+					pp := o.Pkg.Pkg.Path()
+					return (pp == "sort" || pp == "slices" || pp == istioMod+"/pkg/slices") && (strings.HasPrefix(o.Name(), "Sort") || o.Name() == "Strings" || o.Name() == "Slice" || o.Name() == "SliceStable" || o.Name() == "Stable")
+				}
+				var smallH []Edge
+				for _, i := range allIfs(sc) {
+					v, neg := stripNot(i.Cond)
+					b, ok := v.(*ssa.BinOp)
+					if !ok {
+						continue
+					}
+					lc, ok := b.X.(*ssa.Call)
+					if !ok {
+						continue
+					}
+					if bi, ok := lc.Call.Value.(*ssa.Builtin); !ok || bi.Name() != "len" {
+						continue
+					}
+					k, ok := b.Y.(*ssa.Const)
+					if !ok || k.Value == nil {
+						continue
+					}
+					if (b.Op == token.GEQ && k.Int64() == 2) || (b.Op == token.GTR && k.Int64() == 1) {
+						idx := 1
+						if neg {
+							idx = 0
+						}
+						smallH = append(smallH, Edge{i.Block(), idx})
+					}
+				}
+				if _, f := pathAvoidingE(sc.Blocks[0], nil, isAnySort, isReturn, smallH, nil); !f {
+					sortedProducer = true
+				}
+			}
+			if sortedProducer {
+				c.Check("locality groups are appended in a loop over the sorted locality keys", call.Pos(), true, "")
+				return
 			}
 		}
 		_, found := pathAvoidingE(fn.Blocks[0], nil, isSortOf, func(i ssa.Instruction) bool { return i.Block() == in.Body }, small, nil)
@@ -1986,6 +2048,38 @@ func c17r9(c *Ctx) {
 					}
 					c.Check("no first-match-wins under a map range: "+key, r.Pos(), false,
 						"a value taken from the current key / element is returned from inside a range over a map: when more than one entry qualifies, which one is returned is decided by map iteration order, so what is generated from it differs from generation to generation and between istiod instances for the same configuration")
+				}
+			}
+			// "first match, then break": a phi after the loop that receives an iteration-derived value over an edge that
+			// leaves the loop from inside its body
+			for _, b := range fn.Blocks {
+				if inLoop(b) {
+					continue
+				}
+				for _, bi := range b.Instrs {
+					ph, ok := bi.(*ssa.Phi)
+					if !ok {
+						break
+					}
+					for k, e := range ph.Edges {
+						pred := b.Preds[k]
+						if !l.Body.Dominates(pred) {
+							continue
+						}
+						if _, isConst := e.(*ssa.Const); isConst || !derives(e) {
+							continue
+						}
+						if ac, ok := e.(*ssa.Call); ok && isAppendCall(ac) {
+							continue
+						}
+						key := stableFnName(fn) + "|" + ph.Comment + "|first match then break"
+						if why, ok := c17r9Exceptions[key]; ok {
+							c.Infof("exception %s: %s", key, why)
+							continue
+						}
+						c.Check("no first-match-wins under a map range: "+key, ph.Pos(), false,
+							"inside a range over a map the variable `"+ph.Comment+"` takes a value from the current key / element and the loop is left at once: when more than one entry qualifies, which one is kept is decided by map iteration order, so what is generated from it differs from generation to generation and between istiod instances for the same configuration")
+					}
 				}
 			}
 			for _, hi := range l.Header.Instrs {
